@@ -1,20 +1,14 @@
 /-
-L7 — cache-free specification of every `XmlContext` call (`pureOut`), the
-(class, parent namespace) pairs a call requests (`opUses`) and the decidable
-side conditions under which the shared context provably behaves like a fresh
-one (`consistent`, `faithful`, `noEvict`, folded over a history by `histOK`).
+L7 — cache-free specification of every `XmlContext` call (`pureOut`) and the
+decidable side conditions under which the shared context provably behaves like
+a fresh one (`faithful`, `noEvict`, folded over a history by `histOK`).  Since
+the cache is keyed by `(class, parent_ns)` no condition on parent namespaces is
+needed any more.
 -/
 import XsdataModel.Ctx.Context
 
 namespace Xs.Ctx
 open Py
-
-/-- the metadata of `c` depends on the parent namespace it is first built with:
-the class has no `Meta.namespace` of its own -/
-def nsSensitive (U : Universe) (c : ClassId) : Bool :=
-  match U.get? c with
-  | some d => d.ns.isNone
-  | none => false
 
 def buildable (U : Universe) (c : ClassId) : Bool :=
   match pureBuild U c none with
@@ -79,25 +73,6 @@ def pureOut (U : Universe) (w : World) : Op → Out
     | .ok l => .gotNames l
     | .error e => .raised e
 
-/-- the `(class, parent_ns)` pairs a call hands to `build` -/
-def opUses (U : Universe) (w : World) : Op → List Use
-  | .build c pns => [(c, pns)]
-  | .fetch c pns xsi =>
-    (c, pns) :: (match pureSub U w c pns xsi with
-      | some sub => [(sub, pns)]
-      | none => [])
-  | .localNamesMatch _ c => [(c, none)]
-  | .findTypeByFields _ => (indexedClasses (pureIndex U w.loaded)).map fun c => (c, none)
-  | .serialize toks => serUses U toks
-  | _ => []
-
-/-- no namespace-less class is requested under two different parent namespaces -/
-def consistent (U : Universe) (us : List Use) : Prop :=
-  ∀ a ∈ us, ∀ b ∈ us, a.1 = b.1 → nsSensitive U a.1 = true → a.2 = b.2
-
-instance (U : Universe) (us : List Use) : Decidable (consistent U us) :=
-  inferInstanceAs (Decidable (∀ a ∈ us, ∀ b ∈ us, a.1 = b.1 → nsSensitive U a.1 = true → a.2 = b.2))
-
 /-- `len(sys.modules)` identifies the set of loaded classes -/
 def faithful (ws : List World) : Prop :=
   ∀ a ∈ ws, ∀ b ∈ ws, a.mods = b.mods → a.loaded = b.loaded
@@ -124,41 +99,33 @@ instance (U : Universe) (w : World) : (op : Op) → Decidable (noEvict U w op)
   | .reset => inferInstanceAs (Decidable True)
   | .serialize _ => inferInstanceAs (Decidable True)
 
-/-- what has been requested from the instance since it was created / reset -/
+/-- the worlds the instance has been used in since it was created / reset -/
 structure Track where
-  uses : List Use
   worlds : List World
 
-def Track.empty : Track := ⟨[], []⟩
+def Track.empty : Track := ⟨[]⟩
 
-def Track.next (U : Universe) (t : Track) (w : World) (op : Op) : Track :=
-  if op = .reset then Track.empty else ⟨t.uses ++ opUses U w op, w :: t.worlds⟩
+def Track.next (t : Track) (w : World) (op : Op) : Track :=
+  if op = .reset then Track.empty else ⟨w :: t.worlds⟩
 
 def okStep (U : Universe) (t : Track) (w : World) (op : Op) : Prop :=
-  consistent U (t.uses ++ opUses U w op) ∧ faithful (w :: t.worlds) ∧ noEvict U w op
+  faithful (w :: t.worlds) ∧ noEvict U w op
 
 instance (U : Universe) (t : Track) (w : World) (op : Op) : Decidable (okStep U t w op) :=
-  inferInstanceAs (Decidable (consistent U (t.uses ++ opUses U w op) ∧ faithful (w :: t.worlds) ∧ noEvict U w op))
+  inferInstanceAs (Decidable (faithful (w :: t.worlds) ∧ noEvict U w op))
 
 /-- the side conditions hold at every call of the history -/
 def histOK (U : Universe) : Track → List (World × Op) → Prop
   | _, [] => True
-  | t, (w, op) :: rest => okStep U t w op ∧ histOK U (t.next U w op) rest
+  | t, (w, op) :: rest => okStep U t w op ∧ histOK U (t.next w op) rest
 
 def decHistOK (U : Universe) : (t : Track) → (h : List (World × Op)) → Decidable (histOK U t h)
   | _, [] => inferInstanceAs (Decidable True)
   | t, (w, op) :: rest =>
-    have := decHistOK U (t.next U w op) rest
-    inferInstanceAs (Decidable (okStep U t w op ∧ histOK U (t.next U w op) rest))
+    have := decHistOK U (t.next w op) rest
+    inferInstanceAs (Decidable (okStep U t w op ∧ histOK U (t.next w op) rest))
 
 instance (U : Universe) (t : Track) (h : List (World × Op)) : Decidable (histOK U t h) := decHistOK U t h
-
-/-- calls that may appear in a history in which unbuildable classes get evicted
-from the index: everything except `fetch` with an xsi:type, whose choice of the
-subclass to build reads the index by name -/
-def Op.evictionTolerant : Op → Bool
-  | .fetch _ _ x => !truthy x
-  | _ => true
 
 /-- calls whose *result* does not depend on which unbuildable classes have been
 evicted from the index (they never read the index by qualified name) -/
@@ -166,35 +133,39 @@ def Op.evictionBlind : Op → Bool
   | .build _ _ => true
   | .serialize _ => true
   | .findTypeByFields _ => true
+  | .localNamesMatch _ _ => true
   | .buildXsiCache => true
   | .reset => true
   | .fetch _ _ x => !truthy x
   | _ => false
 
-/-- the side conditions without `noEvict` -/
-def okStepW (U : Universe) (t : Track) (w : World) (op : Op) : Prop :=
-  consistent U (t.uses ++ opUses U w op) ∧ faithful (w :: t.worlds) ∧ op.evictionTolerant = true
+/-- calls that do not consult the type index at all: their result is a function
+of the class universe alone -/
+def Op.indexFree : Op → Bool
+  | .build _ _ => true
+  | .serialize _ => true
+  | .localNamesMatch _ _ => true
+  | .reset => true
+  | .buildXsiCache => true
+  | .fetch _ _ x => !truthy x
+  | _ => false
 
-instance (U : Universe) (t : Track) (w : World) (op : Op) : Decidable (okStepW U t w op) :=
-  inferInstanceAs (Decidable (consistent U (t.uses ++ opUses U w op) ∧ faithful (w :: t.worlds) ∧
-    op.evictionTolerant = true))
+/-- the side condition without `noEvict` -/
+def okStepW (t : Track) (w : World) : Prop := faithful (w :: t.worlds)
 
-def histOKW (U : Universe) : Track → List (World × Op) → Prop
+instance (t : Track) (w : World) : Decidable (okStepW t w) :=
+  inferInstanceAs (Decidable (faithful (w :: t.worlds)))
+
+def histOKW : Track → List (World × Op) → Prop
   | _, [] => True
-  | t, (w, op) :: rest => okStepW U t w op ∧ histOKW U (t.next U w op) rest
+  | t, (w, op) :: rest => okStepW t w ∧ histOKW (t.next w op) rest
 
-def decHistOKW (U : Universe) : (t : Track) → (h : List (World × Op)) → Decidable (histOKW U t h)
+def decHistOKW : (t : Track) → (h : List (World × Op)) → Decidable (histOKW t h)
   | _, [] => inferInstanceAs (Decidable True)
   | t, (w, op) :: rest =>
-    have := decHistOKW U (t.next U w op) rest
-    inferInstanceAs (Decidable (okStepW U t w op ∧ histOKW U (t.next U w op) rest))
+    have := decHistOKW (t.next w op) rest
+    inferInstanceAs (Decidable (okStepW t w ∧ histOKW (t.next w op) rest))
 
-instance (U : Universe) (t : Track) (h : List (World × Op)) : Decidable (histOKW U t h) := decHistOKW U t h
-
-/-- every class declares its own `Meta.namespace` -/
-def allDeclared (U : Universe) : Prop := ∀ d ∈ U.classes, d.ns.isSome = true
-
-instance (U : Universe) : Decidable (allDeclared U) :=
-  inferInstanceAs (Decidable (∀ d ∈ U.classes, d.ns.isSome = true))
+instance (t : Track) (h : List (World × Op)) : Decidable (histOKW t h) := decHistOKW t h
 
 end Xs.Ctx
